@@ -1,7 +1,7 @@
 use crate::{
     cfg::Cfg,
     parser::{Label, ParserNode},
-    passes::{DiagnosticManager, LintError, LintPass},
+    passes::{DiagnosticLocation, DiagnosticManager, LintError, LintPass},
 };
 use uuid::Uuid;
 
@@ -31,7 +31,9 @@ impl LintPass for OverlappingFunctionCheck {
                         token: l.raw_token().clone(),
                     })
                     .collect::<Vec<_>>();
-                let label = labels.first();
+                // The labels come out of a hash set: report on the one that comes first
+                // in the source, not on whichever happens to be iterated first
+                let label = labels.iter().min_by_key(|l| l.token.range());
 
                 if let Some(l) = label {
                     errors.push(LintError::NodeInManyFunctions(
